@@ -56,6 +56,8 @@ def run_one(mu: dict) -> dict:
             want = mu.get("rule")
             hit = r.returncode == 1 and (want is None or any(x.startswith(want) for x in rules))
             out["status"] = "caught" if hit else ("caught-other-rule" if r.returncode == 1 else ("analysis-error" if r.returncode == 2 else "MISSED"))
+        elif mu["kind"] == "outside":
+            out["status"] = "fail-closed" if r.returncode == 2 else ("UNEXPECTED-PASS" if r.returncode == 0 else "reported")
         else:
             out["status"] = "silent" if r.returncode == 0 else ("analysis-error" if r.returncode == 2 else "FALSE-ALARM")
         return out
@@ -83,7 +85,7 @@ def main(argv):
     res = run(props, jobs, only)
     bad = 0
     for r in res:
-        flag = "" if r["status"] in ("caught", "silent") else "   <<<<<<"
+        flag = "" if r["status"] in ("caught", "silent", "fail-closed") else "   <<<<<<"
         if flag:
             bad += 1
         print(f"{r['status']:18s} {r['id']:44s} {r.get('rules')} {flag}")
